@@ -3,7 +3,7 @@
     do not. *)
 From Coq Require Import List QArith Qminmax Qreals Reals.
 From PTBase Require Import Exn PyStr.
-From P Require Import FromGeo Arith Lists NamesAgree Volume ConnGeom SurdR.
+From P Require Import FromGeo Arith Lists NamesAgree Volume ConnGeom SurdR Tilt.
 Open Scope R_scope.
 
 Theorem horiz_conn_area_real : forall g bm i l h k,
@@ -41,3 +41,49 @@ Theorem vertical_conn_real : forall g bm i l c k,
      surdR (kd1 k) = Q2R (csurf c) - Q2R (zcentre l c) /\ surdR (kd2 k) = Q2R (atm_conn g)).
 Proof. exact vertical_R. Qed.
 Print Assumptions vertical_conn_real.
+
+(** ** tilted geometries: mulgrid.get_tilt_vector over the reals *)
+Theorem tilt_vector_closed_form : forall gx gy,
+  gx * gx + gy * gy <= 1 -> gy * gy < 1 ->
+  tilt_vector_R gx gy = (gx, gy, - sqrt (1 - gx * gx - gy * gy)).
+Proof. exact tilt_vector_closed_form_lemma. Qed.
+Print Assumptions tilt_vector_closed_form.
+
+Theorem tilt_vector_unit : forall gx gy,
+  gx * gx + gy * gy <= 1 -> gy * gy < 1 ->
+  let '(x, y, z) := tilt_vector_R gx gy in x * x + y * y + z * z = 1.
+Proof. exact tilt_vector_unit_lemma. Qed.
+Print Assumptions tilt_vector_unit.
+
+Theorem tilt_vector_untilted : tilt_vector_R 0 0 = (0, 0, -1).
+Proof. exact tilt_vector_untilted_lemma. Qed.
+Print Assumptions tilt_vector_untilted.
+
+Theorem tilt_inputs_are_the_tilt_vector : forall g gx gy, tilt_from_angles g gx gy ->
+  (Q2R (tiltx g), Q2R (tilty g), Q2R (tiltz g)) = tilt_vector_R (Q2R gx) (Q2R gy) /\
+  Q2R (tiltz g) = - sqrt (1 - Q2R gx * Q2R gx - Q2R gy * Q2R gy).
+Proof. exact tilt_from_angles_R. Qed.
+Print Assumptions tilt_inputs_are_the_tilt_vector.
+
+Theorem vertical_dircos_tilted : forall g bm i l c k gx gy,
+  vertical_spec_at g bm i l c k -> tilt_from_angles g gx gy ->
+  surdR (kcos k) = - sqrt (1 - Q2R gx * Q2R gx - Q2R gy * Q2R gy).
+Proof. exact vertical_dircos_tilted_lemma. Qed.
+Print Assumptions vertical_dircos_tilted.
+
+Theorem horizontal_dircos_tilted : forall g bm i l h k gx gy,
+  horizontal_spec_at g bm i l h k -> tilt_from_angles g gx gy ->
+  let dx := (ccx (hcolB h) - ccx (hcolA h))%Q in
+  let dy := (ccy (hcolB h) - ccy (hcolA h))%Q in
+  let dz := (zcentre l (hcolB h) - zcentre l (hcolA h))%Q in
+  ~ (dx ^ 2 + dy ^ 2 + dz ^ 2 == 0)%Q ->
+  surdR (kcos k) =
+    (Q2R dx * Q2R gx + Q2R dy * Q2R gy - Q2R dz * sqrt (1 - Q2R gx * Q2R gx - Q2R gy * Q2R gy)) /
+    sqrt ((Q2R dx)² + (Q2R dy)² + (Q2R dz)²).
+Proof. exact horizontal_dircos_tilted_lemma. Qed.
+Print Assumptions horizontal_dircos_tilted.
+
+Theorem example_tilted_inputs :
+  tilt_from_angles (mkGeom nil nil nil 0%nat 1%Q 1%Q 0%nat false (3 # 5)%Q 0%Q (- (4 # 5))%Q 1%Q 0%Q) (3 # 5)%Q 0%Q.
+Proof. exact ex_tilted. Qed.
+Print Assumptions example_tilted_inputs.
